@@ -311,6 +311,12 @@ def rand_call(rng, n=None, lazy=None):
             d["engine"] = rng.choice([None, "numpy", "numpy", "flox", "numbagg"])
         if rng.random() < 0.15:
             d["rows"] = 2
+        if d.get("expected_range") and d.get("method") != "blockwise" and not d.get("by_dask") and rng.random() < 0.5:
+            # floating-point labels with a missing one next to RangeIndex expected groups (the codes fast path masks labels in a
+            # copy of the caller's array - it must stay a copy for every label dtype)
+            labs = list(d["labels"])
+            labs[rng.randrange(len(labs))] = None
+            d["labels"] = labs
         return d
     if api == "scan":
         d = dict(api="scan", vals=vals, labels=labels, chunks=chunks if rng.random() < 0.6 else None, func=rng.choice(["nancumsum", "ffill", "bfill"]))
